@@ -43,13 +43,25 @@ pub fn parse_period(s: &str) -> Option<u64> {
 fn settings(w: &World, idx: usize) -> (u64, u64) {
 	let c = &w.plan.config.certificates[idx];
 	let g = &w.plan.config.global;
-	let rd = c.renew_delay.as_ref().or(g.renew_delay.as_ref()).and_then(|s| parse_period(s)).unwrap_or(30 * 86400);
-	let rer = c.random_early_renew.as_ref().or(g.random_early_renew.as_ref()).and_then(|s| parse_period(s)).unwrap_or(0);
+	let rd = c
+		.renew_delay
+		.as_ref()
+		.or(g.renew_delay.as_ref())
+		.and_then(|s| parse_period(s))
+		.unwrap_or(30 * 86400);
+	let rer = c
+		.random_early_renew
+		.as_ref()
+		.or(g.random_early_renew.as_ref())
+		.and_then(|s| parse_period(s))
+		.unwrap_or(0);
 	(rd, rer)
 }
 
 fn covers(w: &World, idx: usize, s: &PairSnap) -> bool {
-	expect::cert_wire_idents(&w.plan.config.certificates[idx]).iter().all(|(_, v)| s.sans.iter().any(|x| x == v))
+	expect::cert_wire_idents(&w.plan.config.certificates[idx])
+		.iter()
+		.all(|(_, v)| s.sans.iter().any(|x| x == v))
 }
 
 struct Eval {
@@ -96,17 +108,38 @@ pub fn check(r: &RunResult, rep: &mut Report) {
 				Ev::Boot { n } => boot = *n,
 				Ev::BootOk { pairs, .. } => {
 					if let Some(p) = pairs.get(idx) {
-						evals.push(Eval { t: e.t, state: p.clone(), next: None, until: 0 });
+						evals.push(Eval {
+							t: e.t,
+							state: p.clone(),
+							next: None,
+							until: 0,
+						});
 						evals_boot.push(boot);
 					}
 				}
-				Ev::AttemptEnd { cert, ok: true, snap } if cert == &id => {
-					evals.push(Eval { t: e.t, state: snap.clone(), next: None, until: 0 });
+				Ev::AttemptEnd {
+					cert,
+					ok: true,
+					snap,
+				} if cert == &id => {
+					evals.push(Eval {
+						t: e.t,
+						state: snap.clone(),
+						next: None,
+						until: 0,
+					});
 					evals_boot.push(boot);
 				}
-				Ev::AttemptEnd { cert, ok: false, .. } if cert == &id => {
+				Ev::AttemptEnd {
+					cert, ok: false, ..
+				} if cert == &id => {
 					// evaluations after failed attempts belong to C07(d): mark by an empty eval
-					evals.push(Eval { t: u128::MAX, state: Rc::new(PairSnap::default()), next: None, until: 0 });
+					evals.push(Eval {
+						t: u128::MAX,
+						state: Rc::new(PairSnap::default()),
+						next: None,
+						until: 0,
+					});
 					evals_boot.push(boot);
 				}
 				_ => {}
@@ -119,7 +152,12 @@ pub fn check(r: &RunResult, rep: &mut Report) {
 			if ev.t == u128::MAX {
 				continue;
 			}
-			ev.next = atts.iter().filter(|a| a.cert == id && a.boot == b && a.begin.t >= ev.t && a.begin.seq > 0).map(|a| a.begin.t).filter(|t| *t >= ev.t).min();
+			ev.next = atts
+				.iter()
+				.filter(|a| a.cert == id && a.boot == b && a.begin.t >= ev.t && a.begin.seq > 0)
+				.map(|a| a.begin.t)
+				.filter(|t| *t >= ev.t)
+				.min();
 		}
 		for ev in evals.iter() {
 			if ev.t == u128::MAX {
@@ -127,7 +165,8 @@ pub fn check(r: &RunResult, rep: &mut Report) {
 			}
 			rep.nontrivial = true;
 			let s = &ev.state;
-			let wall_eval = w.epoch0 as i128 + (ev.t / 1_000_000_000) as i128 + skew_at(w, ev.t) as i128;
+			let wall_eval =
+				w.epoch0 as i128 + (ev.t / 1_000_000_000) as i128 + skew_at(w, ev.t) as i128;
 			if s.crt_present && !s.crt_parses {
 				// unreadable certificate file (e.g. the daemon was stopped in the middle of writing it):
 				// the daemon's back-off path, which the statement does not speak about
@@ -136,7 +175,14 @@ pub fn check(r: &RunResult, rep: &mut Report) {
 			}
 			let must_now = !s.crt_present || !s.pk_present || !covers(w, idx, s);
 			let (lo, hi): (u128, u128) = if must_now {
-				rep.probe(if !s.crt_present || !s.pk_present { "c06.eval.file_missing" } else { "c06.eval.identifier_uncovered" }, 1);
+				rep.probe(
+					if !s.crt_present || !s.pk_present {
+						"c06.eval.file_missing"
+					} else {
+						"c06.eval.identifier_uncovered"
+					},
+					1,
+				);
 				(ev.t, ev.t)
 			} else if !s.crt_parses {
 				continue; // unreadable certificate: the back-off path, not in the statement
@@ -161,7 +207,20 @@ pub fn check(r: &RunResult, rep: &mut Report) {
 			match ev.next {
 				Some(t_req) => {
 					if t_req > hi + eps {
-						rep.add(Violation::new("C06", "renewal_late", if must_now { "must_renew_now" } else { "due_date_passed" }, "", format!("attempt began {} s after the latest admissible instant", (t_req - hi) / 1_000_000_000)));
+						rep.add(Violation::new(
+							"C06",
+							"renewal_late",
+							if must_now {
+								"must_renew_now"
+							} else {
+								"due_date_passed"
+							},
+							"",
+							format!(
+								"attempt began {} s after the latest admissible instant",
+								(t_req - hi) / 1_000_000_000
+							),
+						));
 					}
 					if t_req + eps < lo {
 						rep.add(Violation::new("C06", "renewal_early", if lo - t_req > 3600_000_000_000 { "far" } else { "near" }, "", format!("attempt began {} s before the earliest admissible instant (lifetime left {} s, renew_delay {} s, random_early_renew {} s)", (lo - t_req) / 1_000_000_000, s.not_after as i128 - wall_eval, rd, rer)));
@@ -173,7 +232,21 @@ pub fn check(r: &RunResult, rep: &mut Report) {
 				None => {
 					// nothing happened until the end of observation: it must not have been due
 					if ev.until > hi + eps {
-						rep.add(Violation::new("C06", "renewal_never_started", if must_now { "must_renew_now" } else { "due_date_passed" }, "", format!("due at {} s, observed until {} s, no attempt", hi / 1_000_000_000, ev.until / 1_000_000_000)));
+						rep.add(Violation::new(
+							"C06",
+							"renewal_never_started",
+							if must_now {
+								"must_renew_now"
+							} else {
+								"due_date_passed"
+							},
+							"",
+							format!(
+								"due at {} s, observed until {} s, no attempt",
+								hi / 1_000_000_000,
+								ev.until / 1_000_000_000
+							),
+						));
 					}
 				}
 			}
